@@ -74,7 +74,6 @@ theorem lossless (v : MacP) (bs : Bytes) (h : v.enc = ok bs) : v.kind.dec0 bs = 
     rw [xor_hi txp dr (by omega) (by omega), xor_lo txp dr (by omega) (by omega),
         xor_hi7 nb cntl (by omega) (by omega), xor_lo7 nb cntl (by omega) (by omega)]
     rw [← leBytes2, le2_rt]
-    simp
   | linkADRAns a b c =>
     cases ok_inj h
     cases a <;> cases b <;> cases c <;> decide
